@@ -1,9 +1,14 @@
 """C06 — no lock of a finished transaction is left behind on failure-free paths.
 Proof: coq/theories/Locks/Props.v (C06_*: bookkeeping invariant of the lock-keys / aggressive-locking / commit / rollback
-state machine). Correspondence/search: random well-formed programs of set/delete/insert/lock-keys(options)/aggressive
-locking/commit/rollback with a contending transaction (driver `txn`, program mode, unistore, no faults, no clock advance);
-after the clients' background work drained, MvccGetByKey of every key must show no lock of a finished transaction."""
-import os, time, json, random
+state machine, for all well-formed event sequences and per-key store outcomes). Correspondence/search: random well-formed
+programs of set/delete/insert/lock-keys(options)/aggressive locking/commit/rollback with a contending transaction (driver
+`txn`, program mode, in-repo mock store, no faults, no clock advance). The extracted model (ocaml/locks) replays every
+program of t1 with the store outcomes observed in the trace and its bookkeeping (flagged keys, lockedCnt, aggressive mode,
+current / previous keys, keys sent to the store) is compared with TxnProbe after every call, its final lock set with the
+MVCC audit. Oracle: after the clients' background work drained no key holds a lock of a finished transaction.
+Known findings F19 / F19b (a previous-attempt key dropped by a failing / skipped re-lock) are classified by a predicate
+computed from the executed steps, never by scenario id."""
+import os, time, json, random, subprocess
 import vlib, txnlab
 from vlib import Verdict
 
@@ -12,6 +17,17 @@ PROPS = [("theories/Locks/Props.v", "Locks.Props")]
 AREAS = ["theories/Locks"]
 BACKEND = os.environ.get("C06_BACKEND", "mock")
 KEYS = ["k1", "k2", "k3", "k4", "k5"]
+
+
+def conflict_pattern(rng, prog, txns, k):
+    """t1 takes a for-update ts, a fresh transaction commits a write of k, t1's next lock of k uses the older ts:
+    write conflict (or locked-with-conflict for a single key in aggressive mode)"""
+    name = "t%d" % (len(txns) + 1)
+    if len(txns) >= 4:
+        return False
+    txns[name] = {"mode": "2pc", "pessimistic": False, "causal": False, "ops": []}
+    prog += [{"t": "t1", "op": "fu_take"}, {"t": name, "op": "begin"}, {"t": name, "op": "set", "k": k, "v": "w-" + k}, {"t": name, "op": "commit"}]
+    return True
 
 
 def gen_program(rng, idx):
@@ -31,6 +47,8 @@ def gen_program(rng, idx):
         if x < 0.30 and pess1:
             ks = rng.sample(KEYS, 1 if agg or rng.random() < 0.5 else rng.choice([2, 3]))
             st = {"t": "t1", "op": "lock", "ks": ks, "wait": rng.choice([-1, -1, 30])}
+            if rng.random() < 0.12 and conflict_pattern(rng, prog, txns, rng.choice(ks)):
+                st["v"] = "fu_saved"
             y = rng.random()
             if y < 0.3:
                 st["rv"] = True
@@ -96,7 +114,104 @@ def directed():
     out.append(sc(6, B + [{"t": "t1", "op": "lock", "ks": ["k4"], "wait": -1, "rv": True, "loie": True}, {"t": "t1", "op": "lock", "ks": ["k1"], "wait": -1, "rv": True, "loie": True}, {"t": "t1", "op": "commit"}, {"t": "t2", "op": "rollback"}]))
     out.append(sc(7, B + [{"t": "t1", "op": "set", "k": "k1", "v": "a"}, {"t": "t1", "op": "set", "k": "k3", "v": "b"}, {"t": "t2", "op": "set", "k": "k3", "v": "c"}, {"t": "t2", "op": "commit"}, {"t": "t1", "op": "commit"}], splits=("k2",), mode="2pc"))
     out[-1]["txns"]["t1"]["pessimistic"] = False
+    A = lambda op: {"t": "t1", "op": op}
+    L = lambda ks, **kw: dict({"t": "t1", "op": "lock", "ks": ks, "wait": -1}, **kw)
+    # F19: the re-lock of a previous-attempt key fails with key-exists (the insert in between sets PresumeKeyNotExists)
+    out.append(sc(8, B + [A("agg_start"), L(["k1"]), {"t": "t1", "op": "insert", "k": "k1", "v": "x"}, A("agg_retry"), L(["k1"], rv=True), A("agg_done"), A("rollback"), {"t": "t2", "op": "rollback"}]))
+    # F19b: the re-lock of a previous-attempt key with lock-only-if-exists finds the key absent
+    out.append(sc(9, B + [A("agg_start"), L(["k4"]), A("agg_retry"), L(["k4"], rv=True, loie=True), A("agg_done"), A("rollback"), {"t": "t2", "op": "rollback"}]))
+    out.append(sc(10, B + [A("agg_start"), L(["k4"]), L(["k2"]), A("agg_retry"), L(["k4"], rv=True, loie=True), L(["k2"], rv=True), A("agg_done"), A("commit"), {"t": "t2", "op": "rollback"}]))
+    # neighbours that must stay clean: same shapes with the key present / without the presume flag / cancel instead of done
+    out.append(sc(11, B + [A("agg_start"), L(["k1"]), A("agg_retry"), L(["k1"], rv=True, loie=True), A("agg_done"), A("rollback"), {"t": "t2", "op": "rollback"}]))
+    out.append(sc(12, B + [A("agg_start"), L(["k1"]), L(["k2"]), A("agg_retry"), L(["k1"], rv=True), A("agg_cancel"), A("rollback"), {"t": "t2", "op": "rollback"}]))
+    out.append(sc(13, B + [{"t": "t2", "op": "set", "k": "k1", "v": "c"}, A("agg_start"), A("fu_take"), {"t": "t2", "op": "commit"}, L(["k1"], v="fu_saved"), L(["k2"]), A("agg_retry"), L(["k2"], ce=True), A("agg_done"), A("rollback")]))
     return out
+
+
+def gen_agg_program(rng, idx):
+    """programs centred on aggressive locking: attempts of single-key calls with options, retries that re-lock some of the
+    previous keys with other options, contention by t2, a multi-key call that leaves the mode, inserts inside an attempt"""
+    mode1 = rng.choice(["2pc", "2pc", "async", "1pc"])
+    splits = rng.sample(KEYS[1:], rng.choice([0, 1, 2]))
+    preload = [{"k": k, "v": "old-" + k} for k in KEYS if rng.random() < 0.6]
+    txns = {"t1": {"mode": mode1, "pessimistic": True, "causal": False, "ops": []},
+            "t2": {"mode": "2pc", "pessimistic": True, "causal": False, "ops": []}}
+    prog = [{"t": "t2", "op": "begin"}, {"t": "t1", "op": "begin"}]
+    t2_done = False
+    def t2_step():
+        nonlocal t2_done
+        if t2_done:
+            return
+        x = rng.random()
+        k = rng.choice(KEYS)
+        if x < 0.45:
+            prog.append({"t": "t2", "op": "lock", "ks": [k], "wait": -1})
+        elif x < 0.75:
+            prog.append({"t": "t2", "op": "set", "k": k, "v": "c-" + k})
+        else:
+            prog.append({"t": "t2", "op": rng.choice(["commit", "commit", "rollback"])})
+            t2_done = True
+    def lock_step(ks):
+        st = {"t": "t1", "op": "lock", "ks": ks, "wait": rng.choice([-1, -1, 30])}
+        y = rng.random()
+        if y < 0.4:
+            st["rv"] = True
+            if len(ks) == 1 and rng.random() < 0.5:
+                st["loie"] = True
+        elif y < 0.6:
+            st["ce"] = True
+        if rng.random() < 0.15:
+            st["v"] = "fu_saved"
+        return st
+    if rng.random() < 0.3:
+        prog.append(lock_step(rng.sample(KEYS, rng.choice([1, 2]))))
+    if rng.random() < 0.3:
+        prog.append({"t": "t1", "op": "fu_take"})
+    prog.append({"t": "t1", "op": "agg_start"})
+    agg = True
+    used = []
+    for a in range(rng.randrange(1, 4)):
+        for _ in range(rng.randrange(1, 4)):
+            if rng.random() < 0.35:
+                t2_step()
+            if rng.random() < 0.1:
+                prog.append({"t": "t1", "op": "fu_take"})
+            k = rng.choice(used) if used and rng.random() < 0.6 else rng.choice(KEYS)
+            x = rng.random()
+            if x < 0.08:
+                prog.append({"t": "t1", "op": "insert", "k": k, "v": "i-" + k})
+            elif x < 0.14:
+                prog.append(lock_step(rng.sample(KEYS, rng.choice([2, 3]))))
+                agg = False
+            else:
+                st = lock_step([k])
+                if rng.random() < 0.15 and conflict_pattern(rng, prog, txns, k):
+                    st["v"] = "fu_saved"
+                prog.append(st)
+            used.append(k)
+            if not agg:
+                break
+        if not agg:
+            break
+        if rng.random() < 0.15:
+            prog.append({"t": "t1", "op": "split", "k": rng.choice(KEYS)})
+        last = a == 2 or rng.random() < 0.3
+        if last:
+            prog.append({"t": "t1", "op": rng.choice(["agg_done", "agg_done", "agg_cancel"])})
+            agg = False
+            break
+        prog.append({"t": "t1", "op": "agg_retry"})
+    if agg:
+        prog.append({"t": "t1", "op": rng.choice(["agg_done", "agg_cancel"])})
+    if rng.random() < 0.3:
+        prog.append(lock_step(rng.sample(KEYS, rng.choice([1, 2]))))
+    if rng.random() < 0.3:
+        prog.append({"t": "t1", "op": rng.choice(["set", "del"]), "k": rng.choice(KEYS), "v": "n"})
+    prog.append({"t": "t1", "op": rng.choice(["commit", "commit", "rollback"])})
+    if not t2_done:
+        prog.append({"t": "t2", "op": rng.choice(["commit", "rollback"])})
+    return {"id": f"a{idx}", "backend": BACKEND, "splits": splits, "preload": preload, "batch_size": rng.choice([0, 0, 24]),
+            "txn": {"mode": "2pc", "ops": []}, "txns": txns, "program": prog, "keys": KEYS, "black_from": -1}
 
 
 def leftovers(r):
@@ -109,37 +224,154 @@ def leftovers(r):
     return bad
 
 
+F19 = "agg_relock_keyexists_drops_prev_key"
+F19B = "agg_relock_loie_absent_drops_prev_key"
+
+
+def dropped_prev_keys(sc, exp):
+    """the classification predicate of the known findings, computed from the executed steps of t1 (exp = expectations of
+    txnlab.locks_replay_lines: op, err, keys sent to the store): keys that were locked in an aggressive-locking attempt,
+    moved to the previous-attempt set by agg_retry and then re-locked by a single-key call that sent a request and
+    (F19) failed with key-exists / write-conflict, or (F19b) succeeded under lock-only-if-exists with the key absent.
+    A key that is later locked again successfully leaves the sets."""
+    in_agg, cur, prev, f19, f19b = False, set(), set(), set(), set()
+    for x in exp:
+        op, st, err = x["op"], sc["program"][x["i"]], x["err"]
+        panic = False
+        if op == "agg_start":
+            if not in_agg:
+                in_agg, cur, prev = True, set(), set()
+        elif op == "agg_retry":
+            if in_agg:
+                prev, cur = cur, set()
+        elif op in ("agg_done", "agg_cancel"):
+            in_agg, cur, prev = False, set(), set()
+        elif op in ("lock", "insert") and x["rpc_keys"] is not None:
+            ks = st.get("ks") or [st["k"]]
+            if in_agg and len(ks) > 1:
+                in_agg, cur, prev = False, set(), set()
+            # a dropped key is tracked again by a later successful call that really locks it, and released by the
+            # asynchronous rollback of a later failing call that names it
+            for k in ks:
+                again = not err and not (st.get("loie") and (x.get("vals") or {}).get(k, "?") is None)
+                rolled = bool(err) and bool(x["rpc_keys"]) and (len(ks) > 1 or err not in ("err:exists", "err:conflict"))
+                if (again or rolled) and not (in_agg and len(ks) == 1 and k in prev):
+                    f19.discard(k); f19b.discard(k)
+            if in_agg and len(ks) == 1:
+                k = ks[0]
+                sent = bool(x["rpc_keys"])
+                if k in prev and sent:
+                    prev.discard(k)
+                    if err in ("err:exists", "err:conflict"):
+                        f19.add(k)
+                    elif not err and st.get("loie") and (x.get("vals") or {}).get(k, "?") is None:
+                        f19b.add(k)
+                    elif not err:
+                        cur.add(k)
+                elif k in prev and not sent and not err:
+                    prev.discard(k); cur.add(k)
+                elif not err and sent:
+                    cur.add(k)
+    return f19, f19b
+
+
+def run_model(mr, scs, res):
+    """one modelrun process for all programs; returns {id: (disagreements, model leftover keys, expectations)}"""
+    blocks, exps = [], {}
+    for sc, r in zip(scs, res):
+        if r.get("fatal"):
+            continue
+        lines, exp = txnlab.locks_replay_lines(sc, r)
+        if not lines:
+            continue
+        vals = {s["i"]: s.get("vals") for s in r.get("steps", [])}
+        for x in exp:
+            x["vals"] = vals.get(x["i"])
+        exps[sc["id"]] = exp
+        blocks.append("\n".join(lines))
+    p = subprocess.run([mr], input="\n".join(blocks) + "\n", capture_output=True, text=True, timeout=900)
+    by = {}
+    for ln in p.stdout.splitlines():
+        f = ln.split("\t")
+        if len(f) > 1:
+            by.setdefault(f[1], []).append(ln)
+    out = {}
+    for sc, r in zip(scs, res):
+        if sc["id"] in exps:
+            bad, left = txnlab.locks_compare(sc, r, by.get(sc["id"], []), exps[sc["id"]])
+            out[sc["id"]] = (bad, left, exps[sc["id"]])
+    return out
+
+
+def judge(v, sc, r, mres, counts):
+    """oracle + correspondence verdict of one program; returns number of violations reported"""
+    bad = leftovers(r)
+    mbad, mleft, exp = mres if mres else ([], None, [])
+    n = 0
+    if bad:
+        keys1 = sorted(x["key"] for x in bad if x["txn"] == "t1")
+        others = [x for x in bad if x["txn"] != "t1"]
+        f19, f19b = dropped_prev_keys(sc, exp) if exp else (set(), set())
+        base = {"kind": "property-oracle", "scenario": sc, "steps": [{k: w for k, w in s.items() if k != "bk"} for s in r.get("steps", [])],
+                "txns": r.get("txns"), "model_leftover": mleft, "model_vs_client": mbad[:5]}
+        rest = [k for k in keys1 if k not in f19 and k not in f19b]
+        agree = mleft == keys1 and not mbad
+        for cls, ks in ((F19, [k for k in keys1 if k in f19]), (F19B, [k for k in keys1 if k in f19b and k not in f19])):
+            if ks:
+                n += 1
+                counts["known:" + cls] = counts.get("known:" + cls, 0) + 1
+                # the class only counts when the as-is model predicts exactly this leftover set and nothing else is left
+                v.violation(dict(base, violated=[f"lock of finished transaction t1 left on {ks} (previous-attempt key dropped by a re-lock)"],
+                                 finding_class=cls if (agree and not rest and not others) else "unclassified"))
+        if rest or others:
+            n += 1
+            v.violation(dict(base, violated=["lock of a finished transaction left behind: %s" % ([x for x in bad if x["key"] in rest or x["txn"] != "t1"])]))
+    if mres is not None:
+        lo1 = sorted(x["key"] for x in bad if x["txn"] == "t1")
+        allbad = list(mbad) + ([f"final lock set of t1: model={mleft} audit={lo1}"] if mleft != lo1 else [])
+        if allbad:
+            counts["model_disagree"] = counts.get("model_disagree", 0) + 1
+            if not bad and counts["model_disagree"] <= 3:
+                n += 1
+                v.violation({"kind": "correspondence", "correspondence": "Locks model (coq/theories/Locks/Model.v, ocaml/locks) vs client bookkeeping (TxnProbe) / MVCC audit",
+                             "disagreements": allbad[:8], "scenario": sc, "theorem": "C06_bookkeeping_inv / C06_no_leftover speak about this model"}, has_input=False)
+    return n
+
+
 def main(tier, replay):
     t0 = time.time()
     v = Verdict(PID)
     rng = random.Random(vlib.SEED)
     cov = {"checker_cmd": "coq/mk.sh theories/Locks/Props.vo + Print Assumptions", "trusted_base": vlib.TRUSTED_BASE}
-    gate_ok = True
-    if os.path.exists(os.path.join(vlib.COQ, PROPS[0][0])):
-        g = vlib.coq_gate(PID, AREAS, PROPS)
-        cov.update(obligations=g["obligations"], discharged=g["discharged"], theorems=g["theorems"], axioms={k: a for k, a in g["axioms"].items() if a})
-        gate_ok = g["ok"]
-        if not g["ok"]:
-            v.violation({"kind": "proof", "theorem_or_file": g["problems"], "what": "Coq obligations no longer check"}, has_input=False)
-    else:
-        cov.update(obligations=0, discharged=0)
-        v.violation({"kind": "proof", "theorem_or_file": ["coq/theories/Locks/Props.v missing"], "what": "no theorem yet"}, has_input=False)
+    g = vlib.coq_gate(PID, AREAS, PROPS)
+    cov.update(obligations=g["obligations"], discharged=g["discharged"], theorems=g["theorems"], axioms={k: a for k, a in g["axioms"].items() if a})
+    if not g["ok"]:
+        v.violation({"kind": "proof", "theorem_or_file": g["problems"], "what": "Coq obligations no longer check"}, has_input=False)
     okd, exe = txnlab.build_driver()
     if not okd:
         v.violation({"kind": "harness-build", "correspondence": "txn driver build against the current tree", "error": exe}, has_input=False)
         rc = v.finish(); vlib.write_evidence(PID, dict(cov, evaluations=0, distinct_nontrivial=0, rule="driver did not build", samples=[]), t0, 1); return rc
+    okm, mr = vlib.build_model("Locks")
+    if not okm:
+        v.violation({"kind": "model-build", "correspondence": "extraction of coq/extract/Locks.v + ocaml/locks/driver.ml", "error": mr}, has_input=False)
+        mr = None
+    counts = {}
     if replay:
         sc = json.load(open(replay))["scenario"]
         r = txnlab.run_scenarios(exe, [sc], jobs=1)[0]
-        bad = leftovers(r)
-        print("replay:", sc["id"], "leftover locks:", bad, "notes:", r.get("notes"))
-        if bad:
-            v.violation({"kind": "property-oracle", "scenario": sc, "violated": bad})
+        if r.get("fatal"):
+            print("replay: driver failed:", r["fatal"])
+            v.violation({"kind": "harness", "correspondence": "txn driver program run", "error": r["fatal"], "scenario": sc}, has_input=False)
+            return v.finish()
+        mres = run_model(mr, [sc], [r]).get(sc["id"]) if mr else None
+        print("replay:", sc["id"], "leftover locks:", leftovers(r), "model leftover:", mres and mres[1], "model vs client:", mres and mres[0], "notes:", r.get("notes"))
+        judge(v, sc, r, mres, counts)
         return v.finish()
-    n = 500 if tier == "quick" else 6000
-    scs = directed() + [gen_program(rng, i) for i in range(n)]
+    n = 700 if tier == "quick" else 6000
+    scs = directed() + [gen_program(rng, i) for i in range(n)] + [gen_agg_program(rng, i) for i in range(n // 2)]
     res = txnlab.run_scenarios(exe, scs)
-    nviol, dist, distinct = 0, {}, set()
+    mall = run_model(mr, scs, res) if mr else {}
+    nviol, dist, distinct, steps_cmp = 0, {}, set(), 0
     for sc, r in zip(scs, res):
         if r.get("fatal"):
             nviol += 1
@@ -147,7 +379,6 @@ def main(tier, replay):
                 v.violation({"kind": "harness", "correspondence": "txn driver program run", "error": r["fatal"], "scenario": sc}, has_input=False)
             continue
         errs = [s.get("err") for s in r.get("steps", []) if s.get("err")]
-        panics = [s for s in r.get("steps", []) if s.get("panic")]
         for e in errs:
             dist["step-error:" + str(e)[:24]] = dist.get("step-error:" + str(e)[:24], 0) + 1
         for t, tv in (r.get("txns") or {}).items():
@@ -155,17 +386,28 @@ def main(tier, replay):
             dist[dk] = dist.get(dk, 0) + 1
         if errs:
             distinct.add(json.dumps(sc["program"]))
-        bad = leftovers(r)
-        undrained = [x for x in (r.get("notes") or []) if "did not drain" in x]
-        if bad:
+        mres = mall.get(sc["id"])
+        if mres:
+            steps_cmp += len(mres[2])
+            for x in mres[2]:
+                if x["op"] in ("lock", "insert") and x["rpc_keys"] is not None:
+                    p = x["line"].split("\t")
+                    cls = "lock:" + ("agg:" if x["bk"]["agg"] else "") + ("no-request" if not x["rpc_keys"] else "request") + (":" + p[-1] if p[-1] != "ok" else "")
+                    counts[cls] = counts.get(cls, 0) + 1
+                    if p[-2] != "0":
+                        counts["lock:locked-with-conflict"] = counts.get("lock:locked-with-conflict", 0) + 1
+                    if p[-3] != "-" and p[6] == "1":
+                        counts["lock:loie-absent"] = counts.get("lock:loie-absent", 0) + 1
+        if nviol < 8:
+            nviol += judge(v, sc, r, mres, counts)
+        elif leftovers(r):
             nviol += 1
-            if nviol <= 5:
-                v.violation({"kind": "property-oracle", "scenario": sc, "violated": ["lock of a finished transaction left behind: %s" % bad],
-                             "steps": r.get("steps"), "txns": r.get("txns")})
-    cov.update(evaluations=len(scs), distinct_nontrivial=len(distinct),
-               rule="8 directed + random well-formed programs (4-13 steps) of set/delete/insert/lock-keys(return-values, check-existence, lock-only-if-exists, no-wait / 30 ms wait, for-update ts taken before a concurrent commit)/aggressive start-retry-cancel-done/commit/rollback for t1 with a contending pessimistic t2, splits in between, modes {2pc, async, 1pc}; no fault, no clock advance; oracle: after the gates are quiet no key holds a lock whose start ts belongs to a finished transaction; distinct non-trivial = distinct programs in which at least one step failed",
-               samples=[{"program": scs[i]["program"], "txns": res[i].get("txns")} for i in (0, 8, 9) if i < len(scs)], input_distribution=dist)
+    cov.update(evaluations=len(scs), distinct_nontrivial=len(distinct), model_programs_compared=len(mall), model_steps_compared=steps_cmp,
+               model_disagreements=counts.get("model_disagree", 0), lock_call_classes=counts,
+               rule="14 directed + random well-formed programs (4-13 steps) of set/delete/insert/lock-keys(return-values, check-existence, lock-only-if-exists, no-wait / 30 ms wait, for-update ts taken before a concurrent commit)/aggressive start-retry-cancel-done/commit/rollback for t1 with a contending pessimistic t2, splits in between, modes {2pc, async, 1pc}, plus programs centred on aggressive-locking attempts (re-locks of previous-attempt keys with other options, inserts inside an attempt, a multi-key call leaving the mode); no fault, no clock advance; oracle: after the gates are quiet no key holds a lock whose start ts belongs to a finished transaction; correspondence: extracted Locks model replays t1 with the observed store outcomes, bookkeeping compared after every call, final lock set with the audit; distinct non-trivial = distinct programs in which at least one step failed",
+               samples=[{"program": scs[i]["program"], "txns": res[i].get("txns")} for i in (0, 8, 9, 20) if i < len(scs)], input_distribution=dist)
     rc = v.finish()
     vlib.write_evidence(PID, cov, t0, violations=len(v.violations), level="proof",
-                        assumptions=["store = tidb unistore (environment)", "quiescence = no transactional RPC of the client in flight or issued for 40 ms"])
+                        assumptions=["store = in-repo mock store (environment)", "quiescence = no transactional RPC of the client in flight or issued for 40 ms",
+                                     "theorems assume the API contract wf_run incl. relock_safe (violations of relock_safe = known findings F19/F19b)"])
     return rc
